@@ -562,6 +562,9 @@ func ruleSGDet(c *Ctx) {
 						}
 					}
 				}
+				if g := mutableStateOperand(P, in); g != nil {
+					bad = "uses the package-level container " + globalKey(g) + " (a cache or other state that outlives the call) at " + P.pos(in.Pos())
+				}
 			}
 		}
 		c.Check(bad == "", key, P.pos(fn.Pos()), "no map iteration, unguarded mutable state, clock, randomness or environment", "schema generation "+bad)
@@ -1012,3 +1015,60 @@ func reflectTypeParamIdx(fn *ssa.Function) int {
 	}
 	return -1
 }
+
+// mutableStateOperand: the instruction mentions a package-level variable of
+// the module that is a mutable container (map, slice, channel, sync.Map,
+// sync.Pool, or a struct holding one) and is not one of the mutex-guarded
+// registries. Results computed through such a variable depend on what earlier
+// calls left in it.
+func mutableStateOperand(P *Program, in ssa.Instruction) *ssa.Global {
+	for _, op := range in.Operands(nil) {
+		g, ok := (*op).(*ssa.Global)
+		if !ok || g.Pkg == nil || !P.isModulePkg(g.Pkg.Pkg) {
+			continue
+		}
+		if _, guarded := guardedBy[globalKey(g)]; guarded {
+			continue
+		}
+		if isMutableContainer(g.Type().(*types.Pointer).Elem(), 0) {
+			return g
+		}
+	}
+	return nil
+}
+
+func isMutableContainer(t types.Type, d int) bool {
+	if d > 3 {
+		return false
+	}
+	if n, ok := types.Unalias(t).(*types.Named); ok && n.Obj().Pkg() != nil && n.Obj().Pkg().Path() == "sync/atomic" {
+		return true // an atomically updated cell is state that outlives the call
+	}
+	if n, ok := types.Unalias(t).(*types.Named); ok && n.Obj().Pkg() != nil && n.Obj().Pkg().Path() == "sync" {
+		switch n.Obj().Name() {
+		case "Map", "Pool":
+			return true
+		}
+		return false
+	}
+	switch x := t.Underlying().(type) {
+	case *types.Map, *types.Chan:
+		return true
+	case *types.Slice:
+		return true
+	case *types.Pointer:
+		return isMutableContainer(x.Elem(), d+1)
+	case *types.Struct:
+		if n, ok := types.Unalias(t).(*types.Named); ok && n.Obj().Pkg() != nil && !P0isModule(n.Obj().Pkg().Path()) {
+			return false // e.g. *strings.Replacer: opaque, treated as a value
+		}
+		for i := 0; i < x.NumFields(); i++ {
+			if isMutableContainer(x.Field(i).Type(), d+1) {
+				return true
+			}
+		}
+	}
+	return false
+}
+
+func P0isModule(path string) bool { return path == modPath || strings.HasPrefix(path, modPath+"/") }
